@@ -245,9 +245,21 @@ func isNotFileBeingWritten(filePath string) bool {
 
 	// Check the output for write access
 	lines := strings.Split(string(output), "\n")
-	for _, line := range lines {
-		// Check if the line contains 'w' indicating write access
-		if strings.Contains(line, "w") {
+	for i, line := range lines {
+		if i == 0 {
+			continue // header: COMMAND PID USER FD TYPE ...
+		}
+		// the access mode is the letter right after the descriptor number in the FD column (4r, 9w, 9wW);
+		// the rest of the line (command, user, path) may contain any letter
+		fields := strings.Fields(line)
+		if len(fields) < 4 {
+			continue
+		}
+		mode := strings.TrimLeft(fields[3], "0123456789")
+		if len(mode) == len(fields[3]) || mode == "" {
+			continue // cwd, txt, mem, ...: not an open descriptor
+		}
+		if mode[0] == 'w' {
 			return true // File is being written to
 		}
 	}
